@@ -182,24 +182,25 @@ def check_callable(role, tis, k, ret):
 
 
 T1MAX = 2 if THOROUGH else 1
-RMAX = NR if THOROUGH else 1
+RMAX = 4 if THOROUGH else 1
 
 
 def uses_enum(tis, ret):
-    return any(POOL[t][2] == "enum" for t in tis) or any(p[0] == "enum" for p in RETS[ret][2])
+    """the listed known finding: a class-scoped enum (pool entry 13) used by a free function"""
+    return any(t == 13 for t in tis)
 
 
 def _run(role, n, k, t0, t1, ret, exact=False):
     role, n, k, t0, t1, ret = pick(role, 0, 4), pick(n, 0, 5), pick(k, 0, 5), pick(t0, 0, NP), pick(t1, 0, NP), pick(ret, 0, NR)
     with concrete():
         tis = [t0, (t0 * 5 + 3 + t1 * 7) % NP, (t0 * 3 + 7 + t1) % NP, (t0 + 11) % NP][:n]
-        if not THOROUGH and not exact:
-            ret = (ret + t0 + n + 2 * k + role) % NR
+        if not exact:
+            ret = (ret * 3 + t0 + n + 2 * k + role) % NR
         if role == 2 and ret == 0:
             ret = 1                         # the generator gives every static method an output
         if role == 0:
             ret = 0
-        if role == 3 and kf_open("C06-function-enum") and uses_enum(tis, ret):
+        if role == 3 and kf_open("C06-foreign-scope-enum") and uses_enum(tis, ret):
             reached()
             return True          # listed known finding (replayed separately by its witness): free functions and enums
         ok = check_callable(ROLES[role], tis, k, ret)
@@ -335,13 +336,10 @@ def c06_function_overloads(r1: int, r2: int, r3: int) -> bool:
     Overloads of one free function with DIFFERENT return shapes (void / value / object / pair): each arity's
     MATLAB-side output assignment and C++ routine follow that overload's own declared return type.
     pre: 0 <= r1 < NR and 0 <= r2 < NR and 0 <= r3 < NR
-    pre: not (kf_open("C06-function-enum") and (r1 == 9 or r2 == 9 or r3 == 9))
     post: _
     """
     r1, r2 = pick(r1, 0, NR), pick(r2, 0, NR)
     r3 = pick(r3, 0, NR) if THOROUGH else (r1 * 3 + r2 + 1) % NR
-    if kf_open("C06-function-enum") and r3 == 9:
-        r3 = 0
     with concrete():
         ok = check_function_overloads(r1, r2, r3)
     reached({"returns": [RETS[r][0] for r in (r1, r2, r3)]} if (not ok or (r1 == 7 and r2 == 0)) else None)
@@ -350,13 +348,13 @@ def c06_function_overloads(r1: int, r2: int, r3: int) -> bool:
 
 def c06_kf_function_enum(which: int) -> bool:
     """
-    Witness replay for known finding C06-function-enum (free function taking / returning an enum).
+    Witness replay for known finding C06-foreign-scope-enum (free function taking a class-scoped enum).
     pre: 0 <= which <= 1
     post: _
     """
     which = pick(which, 0, 2)
     with concrete():
-        ok = check_callable("function", [12] if which == 0 else [], 0, 2 if which == 0 else 9)
+        ok = check_callable("function", [13] if which == 0 else [0, 13], 0, 2 if which == 0 else 9)
     reached()
     return ok
 
